@@ -164,6 +164,8 @@ pub struct Built {
     pub proof: Vec<u8>,
     pub tr: Transcripted,
     pub quotient_remainder_free: bool,
+    /// Some(true) when the requested evaluation was solved and the scalar equation balances
+    pub solved: Option<bool>,
 }
 
 /// Produce a proof. `drop_remainder`: keep the low 4n+6.. coefficients even
@@ -178,6 +180,7 @@ pub fn prove_full(
     bl: &Blinders,
     version: Version,
     drop_remainder: bool,
+    forge_eval: Option<usize>,
 ) -> Option<Built> {
     let n = key.n;
     if wires.n != n || powers.len() < n + 6 {
@@ -282,11 +285,81 @@ pub fn prove_full(
     let z = t.challenge(b"z_challenge");
     let zo = z * omega;
     let ev = |p: &[BlsScalar], x: &BlsScalar| rf::horner(p, x);
-    let (a_e, b_e, c_e, d_e) = (ev(&wp[0], &z), ev(&wp[1], &z), ev(&wp[2], &z), ev(&wp[3], &z));
-    let (s1_e, s2_e, s3_e) = (ev(&key.polys[P_S1], &z), ev(&key.polys[P_S2], &z), ev(&key.polys[P_S3], &z));
-    let z_e = ev(&zp, &zo);
-    let (aw_e, bw_e, dw_e) = (ev(&wp[0], &zo), ev(&wp[1], &zo), ev(&wp[3], &zo));
-    let (qa_e, qc_e, ql_e, qr_e) = (ev(&key.polys[P_QARITH], &z), ev(&key.polys[P_QC], &z), ev(&key.polys[P_QL], &z), ev(&key.polys[P_QR], &z));
+    // evaluations in proof order: a b c d a_w b_w d_w q_arith q_c q_l q_r s1 s2 s3 z_eval
+    let mut e: [BlsScalar; 15] = [
+        ev(&wp[0], &z), ev(&wp[1], &z), ev(&wp[2], &z), ev(&wp[3], &z),
+        ev(&wp[0], &zo), ev(&wp[1], &zo), ev(&wp[3], &zo),
+        ev(&key.polys[P_QARITH], &z), ev(&key.polys[P_QC], &z), ev(&key.polys[P_QL], &z), ev(&key.polys[P_QR], &z),
+        ev(&key.polys[P_S1], &z), ev(&key.polys[P_S2], &z), ev(&key.polys[P_S3], &z),
+        ev(&zp, &zo),
+    ];
+    let zh_z = rf::pow(&z, n as u64) - BlsScalar::one();
+    let l1_z = zh_z * (n_f * (z - BlsScalar::one())).invert()?;
+    let pi_z = rf::horner(&pip, &z);
+    let zn = zh_z + BlsScalar::one();
+    let mut quot = t_lo.clone();
+    quot = rf::add(&quot, &rf::scale(&t_mid, &zn));
+    quot = rf::add(&quot, &rf::scale(&t_hi, &(zn * zn)));
+    quot = rf::add(&quot, &rf::scale(&t_4, &(zn * zn * zn)));
+    // linearisation polynomial for a given evaluation vector: the gate
+    // identities are linear in one selector polynomial each once the wire
+    // evaluations are fixed
+    let lin = |e: &[BlsScalar; 15]| -> Vec<BlsScalar> {
+        let (a_e, b_e, c_e, d_e, aw_e, bw_e, dw_e, qa_e, qc_e, ql_e, qr_e, s1_e, s2_e, s3_e, z_e) =
+            (e[0], e[1], e[2], e[3], e[4], e[5], e[6], e[7], e[8], e[9], e[10], e[11], e[12], e[13], e[14]);
+        let mut r: Vec<BlsScalar> = Vec::new();
+        let add_scaled = |acc: &mut Vec<BlsScalar>, p: &[BlsScalar], k: &BlsScalar| {
+            *acc = rf::add(acc, &rf::scale(p, k));
+        };
+        add_scaled(&mut r, &key.polys[P_QM], &(a_e * b_e * qa_e));
+        add_scaled(&mut r, &key.polys[P_QL], &(a_e * qa_e));
+        add_scaled(&mut r, &key.polys[P_QR], &(b_e * qa_e));
+        add_scaled(&mut r, &key.polys[P_QO], &(c_e * qa_e));
+        add_scaled(&mut r, &key.polys[P_QF], &(d_e * qa_e));
+        add_scaled(&mut r, &key.polys[P_QC], &qa_e);
+        // each custom widget with its own selector set to 1 and the others 0
+        let mut q = [BlsScalar::zero(); 11];
+        q[1] = ql_e;
+        q[2] = qr_e;
+        q[5] = qc_e;
+        for (slot, pidx) in [(8usize, P_QRANGE), (7, P_QLOGIC), (9, P_QFIXED), (10, P_QVAR)] {
+            let mut qq = q;
+            qq[slot] = BlsScalar::one();
+            let coeff = gate_terms(&qq, [a_e, b_e, c_e, d_e], [aw_e, bw_e, dw_e], &seps);
+            add_scaled(&mut r, &key.polys[pidx], &coeff);
+        }
+        r = rf::add(&r, &[pi_z]);
+        let idc = (a_e + beta * z + gamma) * (b_e + beta * k1 * z + gamma) * (c_e + beta * k2 * z + gamma) * (d_e + beta * k3 * z + gamma) * alpha;
+        add_scaled(&mut r, &zp, &(idc + l1_z * alpha * alpha));
+        let cpc = (a_e + beta * s1_e + gamma) * (b_e + beta * s2_e + gamma) * (c_e + beta * s3_e + gamma) * beta * z_e * alpha;
+        add_scaled(&mut r, &key.polys[P_S4], &-cpc);
+        rf::add(&r, &rf::scale(&quot, &-zh_z))
+    };
+    // the scalar balance of the verification equation: zero for honest proofs
+    let balance = |e: &[BlsScalar; 15]| -> BlsScalar {
+        rf::horner(&lin(e), &z)
+            - alpha * alpha * l1_z
+            - alpha * (e[0] + beta * e[11] + gamma) * (e[1] + beta * e[12] + gamma) * (e[2] + beta * e[13] + gamma) * (e[3] + gamma) * e[14]
+    };
+    let mut solved = None;
+    if let Some(k) = forge_eval {
+        // solve evaluation k so that the scalar equation balances (only when
+        // the balance is affine in it with a non-zero slope)
+        let g0 = balance(&e);
+        let mut e1 = e;
+        e1[k] += BlsScalar::one();
+        let g1 = balance(&e1);
+        let mut e2 = e;
+        e2[k] += BlsScalar::from(2u64);
+        let g2 = balance(&e2);
+        let slope = g1 - g0;
+        if g2 - g1 == slope && slope != BlsScalar::zero() && g0 != BlsScalar::zero() {
+            e[k] -= g0 * slope.invert().unwrap();
+            solved = Some(balance(&e) == BlsScalar::zero());
+        }
+    }
+    let (a_e, b_e, c_e, d_e, aw_e, bw_e, dw_e, qa_e, qc_e, ql_e, qr_e, s1_e, s2_e, s3_e, z_e) =
+        (e[0], e[1], e[2], e[3], e[4], e[5], e[6], e[7], e[8], e[9], e[10], e[11], e[12], e[13], e[14]);
     t.scalar(b"a_eval", &a_e);
     t.scalar(b"b_eval", &b_e);
     t.scalar(b"c_eval", &c_e);
@@ -304,48 +377,7 @@ pub fn prove_full(
     t.scalar(b"q_r_eval", &qr_e);
     let v = t.challenge(b"v_challenge");
     let v_w = t.challenge(b"v_w_challenge");
-    // linearisation polynomial: the gate identities are linear in one
-    // selector polynomial each once the wire evaluations are fixed
-    let mut r: Vec<BlsScalar> = Vec::new();
-    let add_scaled = |acc: &mut Vec<BlsScalar>, p: &[BlsScalar], k: &BlsScalar| {
-        *acc = rf::add(acc, &rf::scale(p, k));
-    };
-    add_scaled(&mut r, &key.polys[P_QM], &(a_e * b_e * qa_e));
-    add_scaled(&mut r, &key.polys[P_QL], &(a_e * qa_e));
-    add_scaled(&mut r, &key.polys[P_QR], &(b_e * qa_e));
-    add_scaled(&mut r, &key.polys[P_QO], &(c_e * qa_e));
-    add_scaled(&mut r, &key.polys[P_QF], &(d_e * qa_e));
-    add_scaled(&mut r, &key.polys[P_QC], &qa_e);
-    {
-        // each custom widget with its own selector set to 1 and the others 0
-        let mut q = [BlsScalar::zero(); 11];
-        q[1] = ql_e;
-        q[2] = qr_e;
-        q[5] = qc_e;
-        for (slot, pidx) in [(8usize, P_QRANGE), (7, P_QLOGIC), (9, P_QFIXED), (10, P_QVAR)] {
-            let mut qq = q;
-            qq[slot] = BlsScalar::one();
-            let coeff = gate_terms(&qq, [a_e, b_e, c_e, d_e], [aw_e, bw_e, dw_e], &seps);
-            add_scaled(&mut r, &key.polys[pidx], &coeff);
-        }
-    }
-    // public inputs evaluated at z (constant term)
-    let pi_z = rf::horner(&pip, &z);
-    r = rf::add(&r, &[pi_z]);
-    // permutation
-    let zh_z = rf::pow(&z, n as u64) - BlsScalar::one();
-    let l1_z = zh_z * (n_f * (z - BlsScalar::one())).invert()?;
-    let idc = (a_e + beta * z + gamma) * (b_e + beta * k1 * z + gamma) * (c_e + beta * k2 * z + gamma) * (d_e + beta * k3 * z + gamma) * alpha;
-    add_scaled(&mut r, &zp, &(idc + l1_z * alpha * alpha));
-    let cpc = (a_e + beta * s1_e + gamma) * (b_e + beta * s2_e + gamma) * (c_e + beta * s3_e + gamma) * beta * z_e * alpha;
-    add_scaled(&mut r, &key.polys[P_S4], &-cpc);
-    // quotient
-    let zn = zh_z + BlsScalar::one();
-    let mut quot = t_lo.clone();
-    quot = rf::add(&quot, &rf::scale(&t_mid, &zn));
-    quot = rf::add(&quot, &rf::scale(&t_hi, &(zn * zn)));
-    quot = rf::add(&quot, &rf::scale(&t_4, &(zn * zn * zn)));
-    r = rf::add(&r, &rf::scale(&quot, &-zh_z));
+    let r = lin(&e);
     // opening witnesses
     let at_z: Vec<&[BlsScalar]> = match version {
         Version::V1 => vec![&r, &wp[0], &wp[1], &wp[2], &wp[3], &key.polys[P_S1], &key.polys[P_S2], &key.polys[P_S3]],
@@ -373,9 +405,9 @@ pub fn prove_full(
     for s in [a_e, b_e, c_e, d_e, aw_e, bw_e, dw_e, qa_e, qc_e, ql_e, qr_e, s1_e, s2_e, s3_e, z_e] {
         out.extend_from_slice(&s.to_bytes());
     }
-    Some(Built { proof: out, tr: Transcripted { beta, gamma, alpha, seps, z, v, v_w }, quotient_remainder_free: clean })
+    Some(Built { proof: out, tr: Transcripted { beta, gamma, alpha, seps, z, v, v_w }, quotient_remainder_free: clean, solved })
 }
 
 pub fn prove(key: &KeyPolys, powers: &[G1Affine], vk: &VKey, wires: &Wires, pi: &[BlsScalar], bl: &Blinders, version: Version) -> Option<Vec<u8>> {
-    prove_full(key, powers, vk, wires, pi, bl, version, false).map(|b| b.proof)
+    prove_full(key, powers, vk, wires, pi, bl, version, false, None).map(|b| b.proof)
 }
